@@ -522,7 +522,9 @@ def r07_14(ctx):
     other formats do not have; and the tree walk behind sdkconfig descends into every node (R07.9a)."""
     from . import c11
     from .common import delegate
-    delegate(ctx, c11.r11_4, lambda c: 'get_deprecated_option' in c)
+    # ... and the same inversion table: is_inversion() (CMake, loader) is the plain membership test the sdkconfig block and the
+    # header section spell out as `name in self.inversions` - a lookup that rewrites the name first disagrees with them
+    delegate(ctx, c11.r11_4, lambda c: 'get_deprecated_option' in c or c.startswith('DeprecatedOptions.is_inversion/'))
 
 
 def r07_15(ctx):
